@@ -167,6 +167,46 @@ def run(tier: str, seed: int) -> int:
                         kind, c.decl.short(), c.cfg.short()[:200], e["message"][:300]),
                     {"kind": "signature-probe", "probe": kind, "case": c.describe(), "source": it.text,
                      "errors": [e["rendered"][:2000]]}))
+        # const-ness must not depend on mode or shape either: for the functions which are not documented as
+        # const the outcome of a `const X = E::f(..)` probe may be "accepted" or "rejected", but it must be the
+        # same in every case (relational, no expectation about which)
+        first = {c.id: c.decl.variants[0].ident for c in cases}
+        citems, cmeta = [], {}
+        for c in cases:
+            nm = c.cfg.item_name
+            head = "%s\nuse self::subject::%s as E;\ntype R = %s;\n" % (subject_text(c), c.decl.name, c.decl.repr)
+            for k, (feat, expr) in enumerate((("as_str", "pub const P: &str = E::%s(E::%s);" % (nm("as_str"), first[c.id])),
+                                              ("next", "pub const P: Option<E> = E::%s(E::%s);" % (nm("next"), first[c.id])),
+                                              ("try_from", "pub const P: Option<E> = E::%s(0);" % nm("try_from")))):
+                if not c.cfg.has(feat):
+                    continue
+                iid = 500000 + c.id * 10 + k
+                citems.append(Item(iid, head + expr + "\n", "reject", {"case": c.describe(), "fn": feat}))
+                cmeta[iid] = (c, feat)
+        g2 = CompileGroup("sigconst", tier, per_crate=200)
+        with Lock(g2.root + ".lock"):
+            res2 = g2.run(citems, reject_cmd="build")
+        by_fn = {}
+        for it in citems:
+            r = res2.get(it.id)
+            if r is None or r["outcome"] == "unknown":
+                inconclusive.append("const probe %d has no verdict" % it.id)
+                continue
+            by_fn.setdefault(it.meta["fn"], {}).setdefault(r["outcome"], []).append(it)
+        const_probes = 0
+        for fn, outs in by_fn.items():
+            const_probes += sum(len(v) for v in outs.values())
+            if len(outs) > 1:
+                minority = min(outs.values(), key=len)
+                majority = max(outs.values(), key=len)
+                a, b = minority[0], majority[0]
+                ca, cb = cmeta[a.id][0], cmeta[b.id][0]
+                violations.append(Violation(
+                    prop, "C19|constness-depends-on-mode|%s|%s" % (fn, ca.cfg.key()),
+                    "whether %s is usable in a constant expression depends on mode / shape: %d cases one way, %d the other; e.g. %s with %s versus %s with %s" % (
+                        fn, len(minority), len(majority), ca.decl.short(), ca.cfg.short()[:160], cb.decl.short(), cb.cfg.short()[:160]),
+                    {"kind": "signature-probe", "probe": "const " + fn, "case": ca.describe(), "source": a.text,
+                     "other_case": cb.describe()}))
         if not samples and items:
             c, line_of, ps = meta[items[0].id]
             samples.append({"case": c.describe(), "probes": [l for _, l in ps[:5]]})
@@ -177,6 +217,7 @@ def run(tier: str, seed: int) -> int:
             "samples": samples,
             "cases": len(cases),
             "probes_per_kind": kinds,
+            "relational_constness_probes": const_probes,
             "cargo_s": round(g.secs, 1),
         }
     except Inconclusive as e:
